@@ -12,9 +12,9 @@ static std::vector<uint8_t> g_bank;
 static const int CORES[] = {OPNMIDI_EMU_MAME, OPNMIDI_EMU_NUKED_YM3438, OPNMIDI_EMU_GENS, OPNMIDI_EMU_YMFM_OPN2, OPNMIDI_EMU_NP2, OPNMIDI_EMU_MAME_2608, OPNMIDI_EMU_YMFM_OPNA, OPNMIDI_EMU_NUKED_YM2612};
 static const long RATES[] = {8000, 11025, 22050, 44100, 48000, 53267, 55466, 96000, 192000};
 
-struct Cfg { int core, family; long rate; bool pcmrate; int key, chips; int burst; int ending; /*0 note-off, 1 panic, 2 reset*/ };
+struct Cfg { int core, family; long rate; bool pcmrate; int key, chips; int burst; int ending; /*0 note-off, 1 panic, 2 reset*/ int chord = 1; /* voices sounding the key in unison (one per MIDI channel) */ };
 
-static std::string cfg_str(const Cfg &c, const char *name) { char b[200]; snprintf(b, sizeof b, "%s, family %s, %ld Hz%s, key %d, %d chip(s), burst %d, ending %s", name, c.family ? "OPNA" : "OPN2", c.rate, c.pcmrate ? ", run-at-PCM-rate" : "", c.key, c.chips, c.burst, c.ending == 0 ? "note-off" : c.ending == 1 ? "panic" : "reset"); return b; }
+static std::string cfg_str(const Cfg &c, const char *name) { char b[200]; snprintf(b, sizeof b, "%s, family %s, %ld Hz%s, key %d, %d chip(s), burst %d, ending %s", name, c.family ? "OPNA" : "OPN2", c.rate, c.pcmrate ? ", run-at-PCM-rate" : "", c.key, c.chips, c.burst, c.ending == 0 ? "note-off" : c.ending == 1 ? "panic" : "reset"); std::string r = b; if(c.chord > 1) r += ", " + std::to_string(c.chord) + " voices in unison"; return r; }
 
 static void render(pl::Instance &I, double ms, std::vector<int> &out) {   // mono (left) samples
     long frames = (long)llround(ms * (double)I.play()->m_setup.PCM_RATE / 1000.0); static short buf[2 * 4096];
@@ -39,6 +39,7 @@ static void run_case(const Cfg &c, en::CaseOut &o) {
     for(int k = 0; k < c.burst; k++) { opn2_rt_noteOn(d, (OPN2_UInt8)(k % 3), (OPN2_UInt8)(c.key + (k % 5)), 120); opn2_rt_noteOff(d, (OPN2_UInt8)(k % 3), (OPN2_UInt8)(c.key + (k % 5))); }
     double nominal = 440.0 * pow(2.0, (c.key - 69.0) / 12.0);
     if(opn2_rt_noteOn(d, 0, (OPN2_UInt8)c.key, 127) != 1) { o.fail("C20/note-rejected", "note-on rejected" + ctx); return; }
+    for(int v = 1; v < c.chord; v++) if(opn2_rt_noteOn(d, (OPN2_UInt8)v, (OPN2_UInt8)c.key, 127) != 1) { o.fail("C20/note-rejected", "note-on rejected" + ctx); return; }   // dense chord: the same key on further MIDI channels, a loud sum on one chip
     double held_ms = std::max(200.0, 14.0 * 1000.0 / nominal);
     std::vector<int> held; render(I, held_ms, held);
     // onset within 10 ms
@@ -63,7 +64,7 @@ static void run_case(const Cfg &c, en::CaseOut &o) {
         if(fabs(f / nominal - 1.0) > tol) { snprintf(b, sizeof b, "fundamental %.3f Hz, nominal %.3f Hz (%.3f %% off, limit %.1f %%)", f, nominal, (f / nominal - 1.0) * 100.0, tol * 100.0); o.fail(std::string("C20/pitch/") + (f > nominal ? "sharp" : "flat"), b + ctx); return; }
     } else o.tags |= 1ull << T_PITCH_EXEMPT;
     // ending
-    if(c.ending == 0) opn2_rt_noteOff(d, 0, (OPN2_UInt8)c.key); else if(c.ending == 1) opn2_panic(d); else opn2_reset(d);
+    if(c.ending == 0) { for(int v = 0; v < c.chord; v++) opn2_rt_noteOff(d, (OPN2_UInt8)v, (OPN2_UInt8)c.key); } else if(c.ending == 1) opn2_panic(d); else opn2_reset(d);
     std::vector<int> rel; render(I, 150, rel);       // release time of the pure-tone instrument (fastest release) passes well inside 150 ms
     std::vector<int> after; render(I, 150, after);
     double level = idle_mean;
@@ -98,6 +99,11 @@ int main(int argc, char **argv) {
       en::Family F; F.name = "bursts_chips_endings"; F.count = (uint64_t)8 * 2 * 3 * 3 * 4 * 3 * 3; F.chunk = 2; F.budget_s = 300; F.describe = "8 cores x family x rate {22050,44100,53267} x chips {1,2,3} x burst of {1,10,20,50} note-on/off pairs with no time in between x key {36,60,84} x ending {note-off, panic, reset}: pitch of the held note and return to the idle level";
       F.run = [](uint64_t i, en::CaseOut &o) { Cfg c; uint64_t r = i; c.core = CORES[r % 8]; r /= 8; c.family = (int)(r % 2); r /= 2; c.rate = RT[r % 3]; r /= 3; c.chips = 1 + (int)(r % 3); r /= 3; c.burst = BURST[r % 4]; r /= 4; c.key = KEYS[r % 3]; r /= 3; c.ending = (int)r; c.pcmrate = false;
         if(i % 211 == 0) o.sample = cfg_str(c, "core"); run_case(c, o); };
+      fams.push_back(F); }
+    { static const int KEYS[] = {36, 60, 84}; static const long RT[] = {8000, 44100, 53267, 96000, 192000}; static const int CH[] = {3, 6};
+      en::Family F; F.name = "unison_chords"; F.count = (uint64_t)8 * 2 * 5 * 2 * 3 * 2; F.chunk = 2; F.budget_s = 300; F.describe = "8 cores x family x rate {8000,44100,53267,96000,192000} x {3, 6} voices sounding the key in unison at full velocity on one chip (a loud, clipping sum) x key {36,60,84} x ending {note-off, panic}: onset, audibility, fundamental and return to the idle level";
+      F.run = [](uint64_t i, en::CaseOut &o) { Cfg c; uint64_t r = i; c.core = CORES[r % 8]; r /= 8; c.family = (int)(r % 2); r /= 2; c.rate = RT[r % 5]; r /= 5; c.chord = CH[r % 2]; r /= 2; c.key = KEYS[r % 3]; r /= 3; c.ending = (int)r; c.pcmrate = false; c.chips = 1; c.burst = 0;
+        if(i % 101 == 0) o.sample = cfg_str(c, "core"); run_case(c, o); };
       fams.push_back(F); }
     return en::run_main(argc, argv, "C20", fams, TAGS, "non-trivial: the whole measurement (idle, onset, level, pitch where applicable, silence) completed inside the thresholds");
 }
